@@ -68,6 +68,8 @@ SCHEME_KINDS = {
               spaces.UNIFYING_TINY, spaces.INDUCED05_TINY],
     'three_t': [spaces.UNIFYING, spaces.PSEUDO, spaces.B5LTT5, spaces.UNIFYING_TINY, spaces.INDUCED05_TINY],
     'two_t': [spaces.UNIFYING, spaces.B3LTB4, spaces.UNIFYING_TINY],
+    'rest11': [x for _, x in spaces.SCHQ if x not in (spaces.UNIFYING, spaces.INDUCED_05, spaces.PSEUDO, spaces.B3LTB4,
+                                                      spaces.POSITIONAL, spaces.B5LTT5)],
     'tiny': [spaces.UNIFYING_TINY, spaces.INDUCED05_TINY],
     'c15': [spaces.UNIFYING, spaces.EXTENDED, spaces.B3LTB4],
     'cycle': [spaces.UNIFYING, spaces.UNIFYING_P0375, spaces.INDUCED],
@@ -167,7 +169,7 @@ def run_block(ctx, sh, mode, configs, oracle, flags=(True, False), per_dataset=N
     # the reused-object pass runs on the small blocks (<= 2000 datasets) and on the DS(3,3)+x sub-space
     if sh.get('premutate'):
         it = premutated(it)
-    reuse = sh.get('reuse', sh.get('space') == 'ext43' or (n <= 5 and spaces.SWO_COUNT[n] ** sh['m'] <= 2000))
+    reuse = sh.get('reuse', sh.get('space') is None and n <= 5 and spaces.SWO_COUNT[n] ** sh['m'] <= 2000)
     instances, history = {}, {}
     for index, ds in it:
         if ds_filter is not None and not ds_filter(ds):
